@@ -3,6 +3,8 @@ import UralModel.Props.C03Control
 import UralModel.Props.C01Whole
 import UralModel.Lemmas.NormBridge
 import UralModel.Lemmas.C07Bridge
+import UralModel.Lemmas.Redirect
+import UralModel.Props.C15
 /-!
 # C03 on STRINGS: (c1), (a) with the parser inside the model
 
@@ -209,5 +211,151 @@ theorem normalize_canonical_string (puny : Str → Str) (hpc : PunyClean puny) (
   · rw [normalizeUrlString_eq]
     unfold normalizeUrl
     simp only [hprep, hparse]
+
+/-! ## (c1) and (a) on strings -/
+
+theorem finalString_stripProtocol (o : Normalize.Opts) (h : o.stripProtocol = true) (b b' : Bool)
+    (x : Split) : finalString o b x = finalString o b' x := by
+  unfold finalString
+  simp [h]
+
+/-- **(c1) on STRINGS** `normalize_url(canonicalize_url(u)) == normalize_url(u)`, both result
+forms, for the whole-string models with the modelled parser.  PARTIAL — explicit hypotheses:
+the cleaned form of `u` is a string of the grammar of `Lemmas/NormBridge.lean` (`InClassOf false g u`:
+scheme prefix of letters / `//` / nothing, userinfo, host name or bracketed literal, port text,
+path empty or absolute, query, fragment), no `%` in the host text; default protocol of 1–64
+letters; unquoted mode; `strip_protocol`, `strip_authentication`, `strip_trailing_slash` on (the
+defaults) and `lowercase` off, every other option free; decoder laws `PunyLaws`, `PunyClean`;
+with `infer_redirection` on, no redirect hint fires on `u` or on its canonical form (outside:
+KF-C03-1).  `platform_aware` off (`platform = id`). -/
+theorem normalize_canonicalize_string_partial (puny : Str → Str) (hp : PunyLaws puny)
+    (hpc : PunyClean puny) (dp : Str) (hdp : LetterProtocol dp)
+    (o : Normalize.Opts) (hq : o.quoted = false) (hsp : o.stripProtocol = true)
+    (hsa : o.stripAuthentication = true) (hsts : o.stripTrailingSlash = true)
+    (hlc : o.lowercase = false) (ir : Bool) (g : UrlG) (u r : Str)
+    (hg : InClassOf false g u) (hpct : '%' ∉ g.host)
+    (hr : canonicalizeUrl puny ⟨dp, false, false⟩ u = some r)
+    (hiu : ir = true → infer u = u) (hir : ir = true → infer r = r) :
+    normalizeUrlStringSplit puny id o ir r = normalizeUrlStringSplit puny id o ir u ∧
+    normalizeUrlString puny id o ir r = normalizeUrlString puny id o ir u := by
+  have hpre : preClean u = g.str := hg.reaches
+  have hg' : InClassOf ir g u := by
+    refine ⟨hg.wf, ?_⟩
+    unfold resolvedClean
+    cases ir with
+    | false => exact hpre
+    | true => simp only [if_true]; rw [hiu rfl]; exact hpre
+  -- the parse inside `canonicalize_url`
+  obtain ⟨s0, hs0⟩ := parse_cleanUrl_grammar g hg.wf hg.noUnsafe u dp hdp.shaped hpre
+  obtain ⟨p, ⟨hpp, _⟩, _⟩ := (Props.C01.canonicalize_accepts_iff puny ⟨dp, false, false⟩ u r).1 hr
+  simp only at hpp
+  rw [hs0] at hpp
+  cases hpo : portVal g.port with
+  | none => rw [hpo] at hpp; cases hpp
+  | some po =>
+    rw [hpo] at hpp
+    simp only [Option.map_some, Option.some.injEq] at hpp
+    rw [hpo] at hs0
+    simp only [Option.map_some] at hs0
+    -- `normalize_url` on the canonical form
+    have hhost : ∀ h0, ({ g.record po with scheme := s0 } : Parsed).hostname = some h0 → '%' ∉ h0 := by
+      intro h0 hh
+      simp only [UrlG.record, UrlG.hostname] at hh
+      split at hh
+      · cases hh
+      · cases hh
+        exact (lowerOf_lowerHost g.host g.host (fun _ h => h)).not_mem hpct (by decide)
+    obtain ⟨c1, c2⟩ := normalize_canonical_string puny hpc dp hdp o ir u r _ hs0 hr hhost hir
+    -- `normalize_url` on `u`
+    have hAbs : absP (g.record po).path = true := (wf_facts hg.wf).pabs
+    have hR : Reparses (canonComps puny o.quoted false { g.record po with scheme := s0 })
+        (reparsedOf puny false false { g.record po with scheme := s0 }) := by
+      rw [hq]; exact reparses_reparsedOf puny false false _
+    have hN := normalize_canonicalize_partial puny hp o hsp hsa hsts hlc (g.record po)
+      (reparsedOf puny false false { g.record po with scheme := s0 }) hAbs
+      (fun e => by rw [hq] at e; cases e) s0 hR g.proto.hasProto true
+    constructor
+    · rw [c1, normalizeUrlStringSplit_eq, normalizeUrlSplit_grammar puny o ir g u hg']
+      unfold UrlG.parsed
+      rw [hpo]
+      simp only [Option.map_some, hN]
+    · rw [c2, normalizeUrlString_cleaned, hg'.reaches, normCleaned_str puny o g hg.wf hg.noUnsafe]
+      unfold normG UrlG.parsed
+      rw [hpo]
+      simp only [Option.map_some, Option.getD_some, hN]
+      exact finalString_stripProtocol o hsp _ _ _
+
+/-- **(a) on STRINGS**: two strings of the class with the same canonical form have the same
+normalized form (both result forms) — (c1) on either side -/
+theorem normalize_of_canon_eq_string_partial (puny : Str → Str) (hp : PunyLaws puny)
+    (hpc : PunyClean puny) (dp : Str) (hdp : LetterProtocol dp)
+    (o : Normalize.Opts) (hq : o.quoted = false) (hsp : o.stripProtocol = true)
+    (hsa : o.stripAuthentication = true) (hsts : o.stripTrailingSlash = true)
+    (hlc : o.lowercase = false) (ir : Bool) (g₁ g₂ : UrlG) (u v r : Str)
+    (hg₁ : InClassOf false g₁ u) (hg₂ : InClassOf false g₂ v)
+    (hpct₁ : '%' ∉ g₁.host) (hpct₂ : '%' ∉ g₂.host)
+    (hru : canonicalizeUrl puny ⟨dp, false, false⟩ u = some r)
+    (hrv : canonicalizeUrl puny ⟨dp, false, false⟩ v = some r)
+    (hiu : ir = true → infer u = u) (hiv : ir = true → infer v = v)
+    (hir : ir = true → infer r = r) :
+    normalizeUrlStringSplit puny id o ir u = normalizeUrlStringSplit puny id o ir v ∧
+    normalizeUrlString puny id o ir u = normalizeUrlString puny id o ir v := by
+  obtain ⟨a1, a2⟩ := normalize_canonicalize_string_partial puny hp hpc dp hdp o hq hsp hsa hsts hlc ir
+    g₁ u r hg₁ hpct₁ hru hiu hir
+  obtain ⟨b1, b2⟩ := normalize_canonicalize_string_partial puny hp hpc dp hdp o hq hsp hsa hsts hlc ir
+    g₂ v r hg₂ hpct₂ hrv hiv hir
+  exact ⟨a1.symm.trans b1, a2.symm.trans b2⟩
+
+/-! ### non-vacuity and the witness of the redirect side condition -/
+
+/-- the grammar pieces of `HTTP://U:P@WWW.A.com:80/x/%2E%2E/%41/index.html?utm_source=1&b=%42&amp;a=1#top` -/
+def exString : UrlG :=
+  { proto := .scheme "HTTP".toList, ui := some "U:P".toList, host := "WWW.A.com".toList,
+    port := some "80".toList, path := "/x/%2E%2E/%41/index.html".toList,
+    query := some "utm_source=1&b=%42&amp;a=1".toList, fragment := some "top".toList }
+
+def exU : Str := " HTTP://U:P@WWW.A.com:80/x/%2e%2E/%41/index.html?utm_source=1&b=%42&amp;a=1#top\n".toList
+def exR : Str := "http://U:P@www.a.com/A/index.html?utm_source=1&b=B&amp;a=1#top".toList
+
+/-- non-vacuity of (c1) on strings: a URL with surrounding white space, a lower-case escape,
+userinfo, capitals and `www.` in the host, a default port, dot segments, an index file, escaped
+letters, a tracking item, `&amp;`, unsorted items and a fragment satisfies every hypothesis (with
+`infer_redirection` on), and both sides evaluate to `a.com/A?a=1&b=B` -/
+example :
+    InClassOf false exString exU ∧ '%' ∉ exString.host ∧ LetterProtocol "https".toList ∧
+    canonicalizeUrl id ⟨"https".toList, false, false⟩ exU = some exR ∧
+    infer exU = exU ∧ infer exR = exR ∧
+    normalizeUrlString id id {} false exR = "a.com/A?a=1&b=B".toList ∧
+    normalizeUrlString id id {} false exU = "a.com/A?a=1&b=B".toList := by
+  refine ⟨by decide +kernel, by decide +kernel, by decide +kernel, by decide +kernel, ?_, ?_,
+    by decide +kernel, by decide +kernel⟩
+  · exact infer_eq_self_of_clean _ (by decide +kernel) (by decide +kernel)
+  · exact infer_eq_self_of_clean _ (by decide +kernel) (by decide +kernel)
+
+example :
+    normalizeUrlString id id {} true exR = normalizeUrlString id id {} true exU :=
+  (normalize_canonicalize_string_partial id Canonicalize.punyLaws_id punyClean_id "https".toList
+    letterProtocol_https {} rfl rfl rfl rfl rfl true exString exU exR (by decide +kernel) (by decide +kernel)
+    (by decide +kernel)
+    (fun _ => infer_eq_self_of_clean _ (by decide +kernel) (by decide +kernel))
+    (fun _ => infer_eq_self_of_clean _ (by decide +kernel) (by decide +kernel))).2
+
+/-- **the redirect side condition is needed** (KF-C03-1 on the model): `a.com?ur%6C=http://b.com`
+carries no hint (`infer u = u`), its canonical form `https://a.com/?url=http://b.com` does
+(`infer r = http://b.com`), and with `infer_redirection` on the two normalized forms differ -/
+example :
+    let u := "a.com?ur%6C=http://b.com".toList
+    let r := "https://a.com/?url=http://b.com".toList
+    canonicalizeUrl id ⟨"https".toList, false, false⟩ u = some r ∧
+    infer u = u ∧ infer r = "http://b.com".toList ∧
+    normalizeUrlString id id {} true u = "a.com?url=http://b.com".toList ∧
+    normalizeUrlString id id {} true r = "b.com".toList := by
+  intro u r
+  have hu : infer u = u := infer_eq_self_of_clean _ (by decide +kernel) (by decide +kernel)
+  have hr : infer r = "http://b.com".toList := by
+    rw [← (Props.C15.infer_total r).2]; decide +kernel
+  refine ⟨by decide +kernel, hu, hr, ?_, ?_⟩
+  · rw [normalizeUrlString_cleaned]; unfold resolvedClean; simp only [if_true]; rw [hu]; decide +kernel
+  · rw [normalizeUrlString_cleaned]; unfold resolvedClean; simp only [if_true]; rw [hr]; decide +kernel
 
 end Ural.Props.C03
